@@ -204,13 +204,9 @@ mutual
       decide (depth < P.maxDepth) &&
       ((kids.isEmpty && (leafSyms P (forbAt P parent) depth ty).contains f) ||
        (decide (depth + 1 < P.maxDepth) &&
-        wtHeads P vis kids (depth + 1) f (appHeads P (forbAt P parent) depth ty)))
-  /-- some applicable head is `f` and its argument types fit the children -/
-  def wtHeads (P : Params) (vis : Sym × Nat → Option (Sym × Nat)) :
-      List Prog → Nat → Sym → List (Sym × List Ty) → Bool
-    | _, _, _, [] => false
-    | kids, depth, f, h :: hs =>
-      (h.1 == f && wtList P vis kids depth f 0 h.2) || wtHeads P vis kids depth f hs
+        -- some applicable head is `f` and its argument types fit the children
+        (appHeads P (forbAt P parent) depth ty).any (fun h =>
+          h.1 == f && wtList P vis kids (depth + 1) f 0 h.2)))
   def wtList (P : Params) (vis : Sym × Nat → Option (Sym × Nat)) :
       List Prog → Nat → Sym → Nat → List Ty → Bool
     | [], _, _, _, [] => true
@@ -218,6 +214,11 @@ mutual
       wt P vis k depth (vis (f, i)) ty && wtList P vis ks depth f (i + 1) tys
     | _, _, _, _, _ => false
 end
+
+/-- the head search of `wt`, named for the proofs -/
+def wtHeads (P : Params) (vis : Sym × Nat → Option (Sym × Nat)) (kids : List Prog) (depth : Nat)
+    (f : Sym) (hs : List (Sym × List Ty)) : Bool :=
+  hs.any (fun h => h.1 == f && wtList P vis kids depth f 0 h.2)
 
 /-- the property's language: terms of the requested return type below no parent -/
 def wtTop (P : Params) (t : Prog) : Bool := wt P some t 0 none P.request.returns
@@ -236,6 +237,23 @@ def wtTerms (P : Params) (vis : Sym × Nat → Option (Sym × Nat)) :
             (fun kids => Tree.node h.1 kids))
        else [])
     else []
+
+/-! ### The language generated by the rule-creation step alone (no table) -/
+
+/- `genR P t nt`: `t` is derivable from `nt` when every non-terminal `n` has the rules
+   `ruleSet P n` — the "virtual" uncleaned grammar of `depth_constraint`. -/
+mutual
+  def genR (P : Params) : Prog → CNT → Bool
+    | .node f kids, nt => (ruleSet P nt).any (fun r => r.1 == f && genRList P kids r.2)
+  def genRList (P : Params) : List Prog → List (Ty × CFGState) → Bool
+    | [], [] => true
+    | k :: ks, a :: as => genR P k (toNT a) && genRList P ks as
+    | _, _ => false
+end
+
+/-- the rule search of `genR`, named for the proofs -/
+def genRAny (P : Params) (kids : List Prog) (f : Sym) (rs : List Rule) : Bool :=
+  rs.any (fun r => r.1 == f && genRList P kids r.2)
 
 /-! ### Verified checker for a concrete rule table -/
 
